@@ -799,7 +799,7 @@ fn replay_main(prop: &Property, path: &Path, known: &[KnownEntry], child: bool) 
     };
     if !child {
         // run the oracle in a child so that an abort is still reported as a violation
-        let exe = std::env::current_exe().unwrap();
+        let exe = self_exe();
         let st = std::process::Command::new(exe)
             .arg("--replay")
             .arg(path)
@@ -863,7 +863,7 @@ fn parent_main(prop: &Property, args: &Args, root: &Path, known: &[KnownEntry], 
     let work = root.join("work").join(format!("{}.{}", prop.id, std::process::id()));
     let _ = std::fs::remove_dir_all(&work);
     std::fs::create_dir_all(&work).unwrap();
-    let exe = std::env::current_exe().unwrap();
+    let exe = self_exe();
     let budget = std::env::var("VERIF_TIMEOUT_S")
         .ok()
         .and_then(|s| s.parse::<u64>().ok())
@@ -1296,5 +1296,17 @@ pub fn fuzz_one<C: Serialize>(property: &str, sub: &str, case: &C, check: impl F
         let _ = std::panic::take_hook();
         eprintln!("FUZZ-FAIL property={property} sub={sub} sig={} replay={}", f.sig, path.display());
         std::process::abort();
+    }
+}
+
+/// Path under which this very program image can be started again. `/proc/self/exe` names the running image itself, so
+/// a worker can still be spawned when the file on disk was replaced or unlinked meanwhile (a rebuild during a run);
+/// `current_exe` would then point to a deleted path.
+pub fn self_exe() -> std::path::PathBuf {
+    let p = std::path::PathBuf::from("/proc/self/exe");
+    if p.exists() {
+        p
+    } else {
+        std::env::current_exe().unwrap_or(p)
     }
 }
